@@ -69,6 +69,7 @@ var ffTamperOps = []string{
 	"sigs-remove-to-threshold", "sigs-remove-one", "sigs-other-body", "sigs-add-stranger", "sigs-only-strangers", "sigs-below-threshold-plus-strangers", "sigs-reencode-lower", "sigs-reencode-prefix", "sigs-none",
 	"frame-round", "frame-peers-reorder", "frame-peers-drop", "frame-peers-add", "frame-root-drop", "frame-root-event-field", "frame-root-annotation",
 	"frame-event-drop", "frame-event-tx", "frame-event-annotation", "frame-peersets", "frame-timestamp",
+	"body-statehash-resigned-by-one-member", "body-tx-append-resigned-by-one-member",
 }
 
 func flip(b []byte) []byte {
@@ -120,6 +121,34 @@ func (c *Cluster) tamperFF(op string, block *hg.Block, frame *hg.Frame, r *RNG) 
 	case "body-receipts":
 		itx := hg.NewInternalTransaction(hg.PEER_ADD, *peers.NewPeer("0X04AA", "x", "y"))
 		block.Body.InternalTransactionReceipts = append(block.Body.InternalTransactionReceipts, itx.AsAccepted())
+	case "body-statehash-resigned-by-one-member", "body-tx-append-resigned-by-one-member":
+		// another body under the same index, round and frame hash; the genuine
+		// block's signatures are replayed unchanged (they no longer verify), and
+		// one member of the set - the Byzantine validator - signs the new body:
+		// one valid signature, too few for any set of four or more
+		byz := c.byzNode()
+		if byz == nil || need < 2 {
+			return false
+		}
+		member := false
+		for _, p := range frame.Peers {
+			if p.PubKeyString() == byz.pubHex {
+				member = true
+			}
+		}
+		if !member {
+			return false
+		}
+		if op == "body-statehash-resigned-by-one-member" {
+			block.Body.StateHash = flip(block.Body.StateHash)
+		} else {
+			block.Body.Transactions = append(block.Body.Transactions, []byte("evil"))
+		}
+		bs, err := block.Sign(byz.key)
+		if err != nil {
+			return false
+		}
+		block.Signatures[bs.ValidatorHex()] = bs.Signature
 	case "sigs-remove-to-threshold":
 		// keep exactly need-1 signatures: one too few
 		ks := sigKeys()
